@@ -788,13 +788,9 @@ Qed.
 
 (* ------------------------------------------------------------------ *)
 (* early error against late error: otto's evaluators pick the ES5 winner with
-   the ES5 side effects in every scenario but the six listed (finite table) *)
-Theorem eval_order_table : forall id,
-  id <> 4 -> id <> 45 -> id <> 31 -> id <> 32 -> id <> 33 -> id <> 44 ->
-  model_eval id = spec_eval id.
+   the ES5 side effects in every scenario (finite table) *)
+Theorem eval_order_table : forall id, model_eval id = spec_eval id.
 Proof.
-  intros id H4 H45 H31 H32 H33 H44. destruct id as [|p|p]; try reflexivity.
-  do 7 (try (destruct p as [p|p|]; try reflexivity)); exfalso;
-    first [apply H4; reflexivity | apply H45; reflexivity | apply H31; reflexivity
-          | apply H32; reflexivity | apply H33; reflexivity | apply H44; reflexivity].
+  intros id. destruct id as [|p|p]; try reflexivity;
+  do 7 (try (destruct p as [p|p|]; try reflexivity)).
 Qed.
